@@ -101,6 +101,15 @@ def response_recipes():
         return r
     for n in (1, 2, 3):
         add("PlainText+%dcookies" % n, lambda i, e, n=n: cookies(i, e, n), 0)
+
+    def hostile_cookie(i, e, name, value):
+        r = pkg(i).PlainTextResponse("c")
+        r.set_cookie(name, value, path="/p")
+        return r
+    # cookie names / values (Latin-1 text, as C16 scopes them) a view may copy from user input: whatever is emitted must stay one legal header line
+    for ci, (name, value) in enumerate([("sid", "token\r\nSet-Cookie: admin=1"), ("sid", "abc\n"), ("sid", "a\x00b"), ("sid", "caf\u00e9 \u00ff"),
+                                        ("s\nid", "v"), ("sid", "\r"), ("sid", "x\ry"), ("sid", 'q"\\;,= ')]):
+        add("PlainText+hostile cookie %d" % ci, lambda i, e, name=name, value=value: hostile_cookie(i, e, name, value), 0)
     for k in (0, 1, 2, 3):
         add("Stream(%d chunks)" % k, lambda i, e, k=k: pkg(i).StreamResponse(stream(i, [b"c%d" % j for j in range(k)])), k)
     add("Stream(empty chunk inside)", lambda i, e: pkg(i).StreamResponse(stream(i, [b"a", b"", b"b"]), 200, {"X-S": "1"}, "text/plain"), 3)
